@@ -256,12 +256,11 @@ MEM_STATIC ZSTD_frameSizeInfo ZSTD_findFrameSizeInfoLegacy(const void *src, size
         frameSizeInfo.compressedSize = ERROR(srcSize_wrong);
         frameSizeInfo.decompressedBound = ZSTD_CONTENTSIZE_ERROR;
     }
-    /* In all cases, decompressedBound == nbBlocks * ZSTD_BLOCKSIZE_MAX.
-     * So we can compute nbBlocks without having to change every function.
+    /* decompressedBound is nbBlocks * ZSTD_BLOCKSIZE_MAX, or more when a raw or RLE block is larger than that.
+     * So we can compute (an upper bound of) nbBlocks without having to change every function.
      */
     if (frameSizeInfo.decompressedBound != ZSTD_CONTENTSIZE_ERROR) {
-        assert((frameSizeInfo.decompressedBound & (ZSTD_BLOCKSIZE_MAX - 1)) == 0);
-        frameSizeInfo.nbBlocks = (size_t)(frameSizeInfo.decompressedBound / ZSTD_BLOCKSIZE_MAX);
+        frameSizeInfo.nbBlocks = (size_t)((frameSizeInfo.decompressedBound + ZSTD_BLOCKSIZE_MAX - 1) / ZSTD_BLOCKSIZE_MAX);
     }
     return frameSizeInfo;
 }
